@@ -38,18 +38,40 @@ def reset_library_globals() -> None:
         root.removeHandler(h)
 
 
+class _FormatAndDiscard(logging.Handler):
+    """Formats every record like a real handler would (so %-arguments are converted, __str__/__repr__ of logged objects
+    run) and throws the text away.  A failure while formatting is kept for the check to look at."""
+
+    def __init__(self) -> None:
+        super().__init__()
+        self.errors: list = []
+        self.records = 0
+
+    def emit(self, record: logging.LogRecord) -> None:
+        self.records += 1
+        try:
+            self.format(record)
+        except Exception as e:       # logging itself would print a traceback to stderr and go on
+            self.errors.append(repr(e))
+
+
 class debug_logging:
-    """Context manager: the library runs with DEBUG logging effective (as with the CLI's --debug), output discarded.
-    Configuration matters: code guarded by isEnabledFor(DEBUG) or evaluated in log arguments only runs then."""
+    """Context manager: the library runs with logging effective at `level` (DEBUG: as with the CLI's --debug; WARNING:
+    Python's default configuration) and a handler that formats and discards the records.  Configuration matters: code
+    guarded by isEnabledFor(), evaluated in log arguments, or run while a record is formatted only runs then."""
+
+    def __init__(self, level: int = logging.DEBUG) -> None:
+        self.level = level
 
     def __enter__(self):
         self._lg = logging.getLogger("msmart")
         self._old = (self._lg.level, self._lg.propagate, list(self._lg.handlers))
         logging.disable(logging.NOTSET)
-        self._lg.setLevel(logging.DEBUG)
+        self._lg.setLevel(self.level)
         self._lg.propagate = False
-        self._h = logging.NullHandler()
+        self._h = _FormatAndDiscard()
         self._lg.addHandler(self._h)
+        self.handler = self._h
         return self
 
     def __exit__(self, *exc):
